@@ -314,6 +314,7 @@ func mainConc(out *util.Out, n int, replay string, known []string) {
 	} else {
 		cases = concCorpus()
 		cases = append(cases, startRaceCorpus()...)
+		cases = append(cases, lateCauseCorpus()...)
 		if hasTag(known, "rollback-busy") {
 			cases = append(cases, startFailCorpus()...)
 		}
@@ -324,7 +325,21 @@ func mainConc(out *util.Out, n int, replay string, known []string) {
 			for k := 0; k < nd; k++ {
 				c.R = append(c.R, []int{0, 1, 2, 3, 4}[r.Intn(5)])
 			}
-			switch r.Intn(3) {
+			switch r.Intn(4) {
+			case 3:
+				// sequential deaths with different reasons, the later ones from inside a handler
+				c.Kind = "latecause"
+				if c.N < 2 {
+					c.N = 2
+				}
+				for len(c.R) < 2 {
+					c.R = append(c.R, []int{0, 1, 3, 4}[r.Intn(4)])
+				}
+				for k := 1; k < len(c.R); k++ {
+					if c.R[k] == rKill {
+						c.R[k] = 3 + r.Intn(2)
+					}
+				}
 			case 0:
 				c.Kind = "stress"
 			case 1:
@@ -364,7 +379,12 @@ func mainConc(out *util.Out, n int, replay string, known []string) {
 			}
 			continue
 		}
-		o := runConc(node, c)
+		var o ConcObs
+		if c.Kind == "latecause" {
+			o = runLateCause(node, c)
+		} else {
+			o = runConc(node, c)
+		}
 		idx := out.Add("", struct {
 			ConcCase
 			Obs ConcObs `json:"obs"`
@@ -378,10 +398,14 @@ func mainConc(out *util.Out, n int, replay string, known []string) {
 		if len(o.Terms) == 1 {
 			out.Stats[fmt.Sprintf("terminate-reason:%d", o.Terms[0])]++
 		}
-		for _, b := range judgeConc(c, o) {
+		judge := judgeConc
+		if c.Kind == "latecause" {
+			judge = judgeLateCause
+		}
+		for _, b := range judge(c, o) {
 			out.Monitor = append(out.Monitor, util.MonitorFail{Case: idx, What: fmt.Sprintf("%s mode %d n %d reasons %v park %q: %s", c.Kind, c.Mode, c.N, c.R, c.Park, b), Tags: c.Tags})
 		}
-		if b := judgeCause(c, o); b != "" {
+		if b := judgeCause(c, o); b != "" && c.Kind != "latecause" {
 			out.Stats["cause-race-seen"]++
 			if causeKnown {
 				out.Monitor = append(out.Monitor, util.MonitorFail{Case: idx, What: fmt.Sprintf("%s mode %d n %d reasons %v park %q: %s", c.Kind, c.Mode, c.N, c.R, c.Park, b), Tags: append(append([]string{}, c.Tags...), "cause-race")})
